@@ -129,6 +129,25 @@ def run(run):
         for label, src in srcs:
             check_file(run, h, d, src, "dir/X.java", stats, mism, label)
             run.count((label, hash(src)))
+        # (2b) depth: constructs far down a long chain of operators and a deep nest of blocks are entities like any other
+        for nops, nblocks in ([(420, 320)] if quick else [(300, 260), (420, 320), (900, 700)]):
+            chain = "class Deep { String head() { return \"h\"; } void tail() { } String cat() { return head()" + "".join(' + "s%d"' % j for j in range(nops)) + "; }\n" + \
+                    "  void nest(boolean c) { " + "if (c) { " * nblocks + "tail(); return;" + " }" * nblocks + " } }\n"
+            rb = h.call(op="build", hex=chain.encode().hex(), file="deep/Deep.java", graph="deep", nonodes=True, timeout=300)
+            run.count(("deep", nops, nblocks))
+            stats["deep_sources"] += 1
+            if rb.get("outcome") != "ok":
+                run.violation("C03:scan-" + str(rb.get("outcome")), "building the graph of a source with a chain of %d operators and %d nested blocks ends with %s" % (nops, nblocks, rb.get("outcome")), dict(operators=nops, blocks=nblocks))
+                if rb.get("outcome") in ("died", "hang"):
+                    h = C.Harness()
+                continue
+            for kind, want in (("add_expression", nops), ("method_invocation", 2), ("IfStmt", nblocks), ("ReturnStmt", 3), ("method_declaration", 4)):
+                rq = h.call(op="query-entities", graph="deep", q="FROM %s AS x SELECT x" % kind, timeout=300)
+                got = len(rq.get("tuples") or []) if rq.get("outcome") == "ok" else None
+                if got != want:
+                    run.violation("C03:deep-construct-missing", "a source with a chain of %d `+` and %d nested ifs has %d %s, %s are reported" % (nops, nblocks, want, kind, got),
+                                  dict(operators=nops, blocks=nblocks, kind=kind, expected=want, reported=got, generator="checks/c03.py (2b)"))
+                    break
         # (3) project level: nested directories, mixed extensions, files with equal content
         for pi in range(2 if quick else 10):
             root = C.scratch("c03proj")
